@@ -225,6 +225,36 @@ def bounded_native(seed=0, n=4):
                                 max_dev_any_field=dev_all, last_dt=float(sol0.dynamics.dt[-1])))
     except Exception as e:  # noqa
         bad.append(dict(what=f"interleaved solvers raised {type(e).__name__}: {str(e)[:120]}"))
+    # epsilon = 1 everywhere stated as a FUNCTION of position made by a factory, after a sibling function of the same factory (same code, other captured
+    # values: a weak spot) served another solver on the same device: the run follows the function it was given and stays in the uniform state
+    try:
+        with tempfile.TemporaryDirectory() as td:
+            lay_ = tdgl.Layer(coherence_length=0.5, london_lambda=2, thickness=0.1, gamma=1)
+            dev_ = tdgl.Device("sib", layer=lay_, film=tdgl.Polygon("film", points=box(3, 2)), length_units="um")
+            dev_.make_mesh(max_edge_length=0.5, smooth=5)
+
+            def spot(depth, vectorized_=False):
+                if vectorized_:
+                    def eps(r, *, vectorized=True):
+                        return 1.0 - depth * (np.hypot(r[:, 0], r[:, 1]) < 0.6)
+                else:
+                    def eps(r):
+                        return 1.0 - depth * float(np.hypot(r[0], r[1]) < 0.6)
+                return eps
+            for vec in (False, True):
+                o_w = tdgl.SolverOptions(solve_time=0.1, dt_init=1e-3, dt_max=2e-2, output_file=os.path.join(td, f"weak{vec}.h5"), save_every=10, progress_interval=0)
+                o_u = tdgl.SolverOptions(solve_time=0.5, dt_init=1e-3, dt_max=2e-2, output_file=os.path.join(td, f"unif{vec}.h5"), save_every=10, progress_interval=0)
+                tdgl.solve(dev_, o_w, disorder_epsilon=spot(0.8, vec))
+                sol_u = tdgl.solve(dev_, o_u, disorder_epsilon=spot(0.0, vec))
+                runs += 1
+                d_ = sol_u.tdgl_data
+                dev_all = max(float(np.abs(np.abs(d_.psi) - 1).max()), float(np.abs(d_.mu).max()), float(np.abs(d_.supercurrent).max()), float(np.abs(d_.normal_current).max()))
+                if dev_all > 1e-9 or np.any(np.asarray(d_.epsilon) != 1):
+                    bad.append(dict(what="an undriven run whose epsilon(r) = 1 everywhere is a function made by a factory leaves the uniform state after a SIBLING function of the same "
+                                         "factory (a weak spot) was used for another run on the same device", vectorized=vec, max_dev_any_field=dev_all,
+                                    min_epsilon_used=float(np.min(d_.epsilon)), last_dt=float(sol_u.dynamics.dt[-1])))
+    except Exception as e:  # noqa
+        bad.append(dict(what=f"sibling-closure runs raised {type(e).__name__}: {str(e)[:120]}"))
     logging.disable(logging.NOTSET)
     out = dict(confirmed=bool(bad), kind="bounded", evaluations=runs, failing_new=len(bad), failing_known=len(known), samples=(bad + known)[:3],
                bound=f"{n} random devices x screening on/off at half the explicit-Euler stability limit (must be bit-exact) + 2 runs far above it (known finding), seed {seed}")
